@@ -11,8 +11,8 @@ from adcgen.expr_container import Expr
 from adcgen.simplify import simplify
 from runtime.tensor_model import Model, orbital_space, evaluate, all_assignments
 
-BUDGET_S = {"quick": 150, "thorough": 3000}
-CASE_TIMEOUT_S = {"quick": 400, "thorough": 1500}
+BUDGET_S = {"quick": 150, "thorough": 3600}
+CASE_TIMEOUT_S = {"quick": 400, "thorough": 2400}
 _CACHE = {}
 
 
@@ -42,9 +42,12 @@ def cases(tier, seed):
                        ("pp", "ph,pphh", "ia,jkbc", 2), ("ip", "h,phh", "i,jka", 1), ("ip", "h,phh", "i,jka", 2)]:
         yield {"variant": v, "block": b, "indices": i, "order": n, "singles": True, "kind": "isr"}
     if tier == "thorough":
-        for v, b, i, n in [("pp", "pphh,pphh", "ijab,klcd", 2), ("pp", "ph,ph", "ia,jb", 3),
-                           ("ea", "p,pph", "a,ibc", 2), ("dip", "hh,hh", "ij,kl", 2),
-                           ("ip", "phh,phh", "ija,klb", 1)]:
+        # (ordered by cost; the last one is the fourth order satellite block that exposed the
+        #  missing class weights of s_root: about 25 min)
+        for v, b, i, n in [("ea", "p,pph", "a,ibc", 2), ("dip", "hh,hh", "ij,kl", 2),
+                           ("ip", "phh,phh", "ija,klb", 1), ("ip", "phh,phh", "ija,klb", 2),
+                           ("ip", "h,h", "i,j", 4), ("pp", "ph,ph", "ia,jb", 3),
+                           ("pp", "pphh,pphh", "ijab,klcd", 2), ("ip", "phh,phh", "ija,klb", 4)]:
             yield {"variant": v, "block": b, "indices": i, "order": n, "singles": False, "kind": "isr"}
 
 
@@ -135,6 +138,6 @@ CHECKS = {
     "overlap_isr.orthonormal": {
         "function": "adcgen.intermediate_states:IntermediateStates.precursor",
         "cases": cases, "check": check,
-        "bound": "pp/ip/ea/dip/dea blocks singles/doubles, orders 0..2 (3 for ph,ph in thorough), ground states without and (ph/pphh, h/phh blocks, orders 1-2) with first order singles, random amplitudes, 2 occ + 2 virt spin orbitals (4 where a class has three indices of a space), all target assignments",
+        "bound": "pp/ip/ea/dip/dea blocks singles/doubles, orders 0..2 (thorough: 3 for ph,ph, 4 for h,h and phh,phh), ground states without and (ph/pphh, h/phh blocks, orders 1-2) with first order singles, random amplitudes, 2 occ + 2 virt spin orbitals (4 where a class has three indices of a space), all target assignments",
     },
 }
